@@ -268,7 +268,19 @@ func (f *Frame) execCall(cur *blockCur, in ssa.Instruction, cc *ssa.CallCommon, 
 			what = "interface call " + cc.Method.FullName()
 		}
 		c.note("%s: result unconstrained, all heaps havocked", what)
+		before := cur.st
 		f.havocAll(cur)
+		if gp := globalFuncVarPkg(cc); gp != nil && c.rootCon != nil {
+			// a call through a package-level function variable (`var Slot = slot`) of an opaque package: whatever
+			// function it holds was put there by that package's own code
+			for _, o := range strings.Split(c.rootCon.Options["opaque-pkgs"], ",") {
+				if strings.TrimSpace(o) == gp.Path() && f.c.lastHavocBase != nil {
+					f.c.lastHavocBase.keepFrom = before
+					f.c.lastHavocBase.keepPkg = gp
+					c.assume("function variable of opaque package " + gp.Path() + " holds a function of that package (not reassigned from outside)")
+				}
+			}
+		}
 		r := f.freshVal(rt, hint)
 		cur.assume(f.typeInv(r))
 		cur.assume(c.refBound(r, cur.st.watermark()))
@@ -294,9 +306,9 @@ func (f *Frame) execCall(cur *blockCur, in ssa.Instruction, cc *ssa.CallCommon, 
 		}
 		before := cur.st
 		f.havocAll(cur)
-		if pk := calleePkg(callee); pk != nil && cur.st.kind == stBase {
-			cur.st.keepFrom = before
-			cur.st.keepPkg = pk
+		if pk := calleePkg(callee); pk != nil && f.c.lastHavocBase != nil {
+			f.c.lastHavocBase.keepFrom = before
+			f.c.lastHavocBase.keepPkg = pk
 			c.assume("code of an opaque package does not write fields of struct types declared in packages it does not import (no reflection / unsafe writes)")
 		}
 		if effBefore != "" {
@@ -343,6 +355,7 @@ func (f *Frame) havocAll(cur *blockCur) {
 	old := cur.st
 	ns := f.c.newBase()
 	ns.immutFrom = old
+	f.c.lastHavocBase = ns
 	for _, lo := range f.c.localObjs {
 		for _, k := range lo.keys {
 			ns = ns.set(k, fmt.Sprintf("(store %s %s (select %s %s))", ns.get(k), lo.ref, old.get(k), lo.ref))
@@ -405,6 +418,12 @@ func escapes(a ssa.Value) bool {
 				}
 			case *ssa.UnOp:
 				// load: fine
+			case *ssa.Lookup, *ssa.Range:
+				// reading a map
+			case *ssa.MapUpdate:
+				if x.Key == v || x.Value == v {
+					return true // the map itself is stored into another map
+				}
 			case *ssa.Store:
 				if x.Val == v {
 					return true
@@ -978,6 +997,16 @@ func callNames(cc *ssa.CallCommon, callee *ssa.Function) []string {
 	}
 	if b, ok := cc.Value.(*ssa.Builtin); ok {
 		return []string{b.Name()}
+	}
+	return nil
+}
+
+// globalFuncVarPkg: the call goes through a package-level variable of function type; returns that variable's package.
+func globalFuncVarPkg(cc *ssa.CallCommon) *types.Package {
+	if u, ok := cc.Value.(*ssa.UnOp); ok {
+		if g, ok := u.X.(*ssa.Global); ok && g.Pkg != nil {
+			return g.Pkg.Pkg
+		}
 	}
 	return nil
 }
